@@ -11,6 +11,7 @@ index carries the point -- all within 1e-9 * scale.
 from __future__ import annotations
 
 import math
+from fractions import Fraction
 
 from vt import gen, monitor as M
 from vt.gen import held, violated, ood
@@ -32,8 +33,38 @@ CASE_LIMIT_S = 20.0
 KF_VERTICAL = "C20:vertical-segment"
 KF_HORIZONTAL = "C20:horizontal-segment-inexact-ordinate"
 KF_NEARVERT = "C20:near-vertical-segment-ill-conditioned"
-MECH = {"vertical": KF_VERTICAL, "horizontal": KF_HORIZONTAL, "near-vertical": KF_NEARVERT}
-MECH_ORDER = ["vertical", "horizontal", "near-vertical"]
+KF_NEARHOR = "C20:near-horizontal-segment-ulp-rise"
+MECH_ORDER = [KF_VERTICAL, KF_HORIZONTAL, KF_NEARVERT, KF_NEARHOR]
+
+
+def mechanism(a, b, q=None):
+    """Known-finding id whose input predicate the leg [a, b] (and, for the
+    almost-horizontal finding, the query q) satisfies, or None.  A predicate
+    over the input coordinates only."""
+    dx, dy = b[0] - a[0], b[1] - a[1]
+    if a[0] == b[0] and a[1] == b[1]:
+        return None
+    if a[0] == b[0]:
+        return KF_VERTICAL
+    if a[1] == b[1]:
+        return KF_HORIZONTAL
+    if abs(dx) <= 1e-6 * abs(dy):
+        return KF_NEARVERT
+    if abs(dy) <= 1e-6 * abs(dx):
+        # almost horizontal: the finding concerns queries whose perpendicular
+        # foot falls on the leg with an ordinate within 4 ulp of y1 or y2
+        u = Fraction(math.ulp(max(abs(a[1]), abs(b[1]))))
+        if q is None:
+            return KF_NEARHOR if abs(dy) <= 4 * u else None
+        X1, Y1, X2, Y2, QX, QY = (Fraction(v) for v in (a[0], a[1], b[0], b[1], q[0], q[1]))
+        DX, DY = X2 - X1, Y2 - Y1
+        t = ((QX - X1) * DX + (QY - Y1) * DY) / (DX * DX + DY * DY)
+        if 0 <= t <= 1:
+            fy = Y1 + t * DY
+            if min(abs(fy - Y1), abs(fy - Y2)) <= 4 * u:
+                return KF_NEARHOR
+    return None
+
 
 ORIENT = ["oblique", "vertical", "horizontal", "near-vertical", "near-horizontal"]
 QKINDS = ["beside", "beyond", "on", "vertex", "far", "near"]
@@ -310,18 +341,20 @@ def classify_query(case, qi, got, raised_type):
     """Known-finding id for one failing query, or None.
 
     The failure is attributed to a known mechanism only if (1) proj_segment is
-    wrong on at least one leg, (2) every leg on which it is wrong is exactly
-    vertical, exactly horizontal or near-vertical (the open findings), and
+    wrong on at least one leg, (2) every leg on which it is wrong satisfies the
+    input predicate of an open finding (exactly vertical, exactly horizontal,
+    near-vertical, almost horizontal with the foot ordinate within 4 ulp of an
+    end ordinate), and
     (3) the polyline-level answer actually observed is exactly what a correct
     minimum-over-legs gives from tracklib's own per-leg answers -- i.e. the
     polyline / mapOnTrack logic itself did nothing wrong."""
     pts = _pts(case)
     q = case["Q"][qi][:2]
     perleg = _per_leg(pts, q)
-    wrong = [(i, cls) for i, cls, r, exc, prob in perleg if prob]
+    wrong = [(i, mechanism(pts[i], pts[i + 1], q)) for i, cls, r, exc, prob in perleg if prob]
     if not wrong:
         return None
-    if any(cls not in MECH for i, cls in wrong):
+    if any(mech is None for i, mech in wrong):
         return None
     ref = _reference_selection(perleg)
     if ref is None:
@@ -339,12 +372,12 @@ def classify_query(case, qi, got, raised_type):
                 return None
     # attribute to the wrong leg nearest to the query (deterministic in the input)
     best = None
-    for i, cls in wrong:
+    for i, mech in wrong:
         dmin = G.point_segment_dist(q, pts[i], pts[i + 1])
-        key = (dmin, MECH_ORDER.index(cls))
+        key = (dmin, MECH_ORDER.index(mech))
         if best is None or key < best[0]:
-            best = (key, cls)
-    return MECH[best[1]]
+            best = (key, mech)
+    return best[1]
 
 
 def _raised_type(w):
@@ -493,7 +526,7 @@ def run_case(case, ctx):
         ctx.monitor("mapOnTrack.reference_track_unchanged")
         if (list(track.getX()), list(track.getY())) != snap:
             ctx.count("reference_track_modified")
-    if not any(c in MECH for c in legcls):
+    if not any(mechanism(pts[i], pts[i + 1]) for i in range(len(pts) - 1)):
         cls.append("judged-clean:vertical-free")
     if failures:
         new = [w for kf, w in failures if kf is None]
